@@ -1,11 +1,16 @@
 #!/bin/sh
 # Offline setup: python deps into .deps (numpy for array properties, sympy as independent oracle), Lean build.
-set -e
 cd "$(dirname "$0")"
 if [ ! -d .deps/numpy ]; then
   /venv/bin/pip install -q --no-index --find-links /opt/veriftools/wheels --target .deps numpy sympy mpmath jsonschema >/dev/null 2>&1 || \
-  /venv/bin/pip install --no-index --find-links /opt/veriftools/wheels --target .deps numpy sympy mpmath jsonschema
+  /venv/bin/pip install --no-index --find-links /opt/veriftools/wheels --target .deps numpy sympy mpmath jsonschema || exit 1
 fi
 /venv/bin/python harness/gen_root.py
+# Lean modules of the claimed checks (each check rebuilds its own modules anyway; this warms the build cache)
+TARGETS=$(/venv/bin/python harness/lean_targets.py)
 cd lean
-lake build MpycV
+if ! lake build $TARGETS; then
+  echo "setup: joint build failed, building targets one by one" >&2
+  for t in $TARGETS; do lake build "$t" || echo "setup: target $t does not build" >&2; done
+fi
+exit 0
